@@ -43,6 +43,15 @@ def joinWith (sep : String) : List String → String
   | [x] => x
   | x :: xs => x ++ sep ++ joinWith sep xs
 
+/-- insertion sort (by code points): the order of the keys of a dict is not part of its value, and a value served from
+    the cache file may come back with its keys in another order -/
+def insertSorted (s : String) : List String → List String
+  | [] => [s]
+  | t :: r => if s < t then s :: t :: r else t :: insertSorted s r
+def sortStrings : List String → List String
+  | [] => []
+  | s :: r => insertSorted s (sortStrings r)
+
 mutual
 def render : Json → String
   | .null => "null"
@@ -54,7 +63,7 @@ def render : Json → String
   | .str s => "\"" ++ escapeStr s ++ "\""
   | .arr xs => "[" ++ joinWith "," (renderL xs) ++ "]"
   | .tup xs => "[" ++ joinWith "," (renderL xs) ++ "]"
-  | .obj kvs => "{" ++ joinWith "," (renderO kvs) ++ "}"
+  | .obj kvs => "{" ++ joinWith "," (sortStrings (renderO kvs)) ++ "}"
 def renderL : List Json → List String
   | [] => []
   | x :: xs => render x :: renderL xs
